@@ -774,6 +774,65 @@ pub fn directed() -> Vec<Request> {
             out.push(Request { mode: Mode::Derive, attr: String::new(), item: format!("#[derive_ex({})] {shape}", rest.join(", ")) });
         }
     }
+    // two helper attributes of one family at two levels: (type, field), (variant, field) and,
+    // outside the comparison family (the key+by grid covers that), both on one field
+    {
+        let fam_of = |h: &str| -> &'static str {
+            let name = h.trim_start_matches("#[").split(|c: char| !(c.is_alphanumeric() || c == '_')).next().unwrap_or("").to_string();
+            match name.as_str() {
+                "ord" | "partial_ord" | "eq" | "partial_eq" | "hash" => "cmp",
+                "debug" => "debug",
+                "default" => "default",
+                "derive_ex" => "derive_ex",
+                _ => "",
+            }
+        };
+        let hs = crate::gen::helper_attrs();
+        for h1 in hs {
+            let f = fam_of(h1);
+            if f.is_empty() {
+                continue;
+            }
+            let list = match f {
+                "cmp" => "Ord, PartialOrd, Eq, PartialEq, Hash",
+                "debug" => "Debug",
+                "default" => "Default",
+                _ => "Clone, Default",
+            };
+            let b_marker = if f == "default" { "" } else { "#[default] " };
+            for h2 in hs {
+                if fam_of(h2) != f {
+                    continue;
+                }
+                let mut items = vec![
+                    format!("{h1} struct X<T>({h2} T);"),
+                    format!("enum X<T> {{ {h1} A({h2} T), {b_marker}B }}"),
+                ];
+                if f != "cmp" {
+                    items.push(format!("struct X<T>({h1} {h2} T, u8);"));
+                    items.push(format!("{h1} enum X<T> {{ A {{ {h2} a: T, b: u8 }}, {b_marker}B }}"));
+                }
+                for item in items {
+                    out.push(Request { mode: Mode::Attr, attr: list.into(), item });
+                }
+            }
+        }
+    }
+    // trait lists that succeed for some entries and fail for a later (or earlier) one, with
+    // `dump` / `bound` in effect or not: what an early return may leave behind for the next request
+    for ok in ["Clone", "Clone(dump)", "Debug(bound(T))", "Default", "PartialEq", "Hash(dump)", "Ord, PartialOrd, Eq, PartialEq"] {
+        for bad in ["Add", "Deref", "Unknown", "Neg", "AddAssign(dump)", "Clone(unknown)", "Copy(bound(T:))"] {
+            for common in ["", ", dump", ", bound(T)", ", bound(..), dump"] {
+                for item in ["enum X<T> { A(T), #[default] B }", "struct X<T>(T, u8);", "struct X;", "enum X {}", "impl Add for X { type Output = X; }"] {
+                    out.push(Request { mode: Mode::Attr, attr: format!("{ok}, {bad}{common}"), item: item.into() });
+                    out.push(Request { mode: Mode::Attr, attr: format!("{bad}, {ok}{common}"), item: item.into() });
+                    if !item.starts_with("impl") {
+                        out.push(Request { mode: Mode::Derive, attr: String::new(), item: format!("#[derive_ex({ok}, {bad}{common})] {item}") });
+                    }
+                }
+            }
+        }
+    }
     // normalise to the printed token form and drop what is not a valid request
     let mut res = Vec::new();
     let mut seen = std::collections::BTreeSet::new();
